@@ -678,6 +678,8 @@ impl GlobalTypeEnv {
 #[derive(Debug, Clone, Default)]
 pub struct Gensym {
     counter: Cell<i32>,
+    /// names the program itself gives to its items: a generated name never is one of them
+    reserved: std::cell::RefCell<std::collections::HashSet<String>>,
 }
 
 impl Gensym {
@@ -687,9 +689,20 @@ impl Gensym {
 
     /// Returns a fresh identifier prefixed by `prefix`.
     pub fn gensym(&self, prefix: &str) -> String {
-        let current = self.counter.get();
-        self.counter.set(current + 1);
-        format!("{}{}", prefix, current)
+        loop {
+            let current = self.counter.get();
+            self.counter.set(current + 1);
+            let name = format!("{}{}", prefix, current);
+            if !self.reserved.borrow().contains(&name) {
+                return name;
+            }
+        }
+    }
+
+    /// Keeps generated names apart from these (the names of the program's own items, which
+    /// are emitted as they are written: `fn t3` next to the temporary `t3`).
+    pub fn reserve(&self, names: impl IntoIterator<Item = String>) {
+        self.reserved.borrow_mut().extend(names);
     }
 
     #[allow(unused)]
